@@ -66,7 +66,9 @@ func runC18(c *core.Ctx) {
 	runR184(c)
 	runR185(c)
 	runR186(c)
-	runR188(c, runR187(c))
+	extractors := runR187(c)
+	runR188(c, extractors)
+	runR1812(c, extractors)
 	runR189(c)
 	runR1810(c)
 	runR1811(c)
